@@ -50,7 +50,7 @@ func (c09) New() interface{} { return &C09Script{} }
 func (c09) Info() core.Info {
 	return core.Info{
 		Runs: map[string]int{"quick": 2000000, "thorough": 200000000},
-		Rule: "Each run is a scripted caller history over a graph of mutable objects: one signal (created empty, or decoded from a reference-serialised canonical section with splice_null / time_signal / splice_insert, 0..3 segmentation descriptors and foreign descriptors), a pool of three command objects (null, time_signal, splice_insert) and three segmentation descriptors built through the creation API. The history (<=40 steps) calls every setter of the signal, the commands and the descriptors in any order (flags set and cleared, values at and beyond the field widths, UPID / multiple-UPID changes incl. the documented no-effect combinations, component lists), attaches and replaces commands and descriptor lists, and encodes at arbitrary points. After every step every getter of every object is compared with a logical model and Data() must still be the bytes of the last encoding; at every encoding the bytes are compared with the reference serialisation of the model (SCTE 35 syntax tables; pts_adjustment is only compared when the command carries a time), the CRC of the whole section must be zero, a second UpdateData must return the same bytes, the bytes are decoded again and every visible field compared, and the decoded signal is re-encoded and must reproduce the bytes. Plus a complete sweep of all histories of length <=4 (quick) / <=5 (thorough) over an 18-letter alphabet of the calls whose interplay decides the encoding. Non-trivial = at least one reach probe fired.",
+		Rule: "Each run is a scripted caller history over a graph of mutable objects: one signal (created empty, or decoded from a reference-serialised canonical section with splice_null / time_signal / splice_insert, 0..3 segmentation descriptors and foreign descriptors), a pool of three command objects (null, time_signal, splice_insert) and three segmentation descriptors built through the creation API. The history (<=40 steps) calls every setter of the signal, the commands and the descriptors in any order (flags set and cleared, values at and beyond the field widths, UPID / multiple-UPID changes incl. the documented no-effect combinations, component lists), attaches and replaces commands and descriptor lists, and encodes at arbitrary points. After every step every getter of every object is compared with a logical model and Data() must still be the bytes of the last encoding; at every encoding the bytes are compared with the reference serialisation of the model (SCTE 35 syntax tables; pts_adjustment is only compared when the command carries a time), the CRC of the whole section must be zero, a second UpdateData must return the same bytes, the bytes are decoded again and every visible field compared, and the decoded signal is re-encoded and must reproduce the bytes. Plus a complete sweep of all histories of length <=4 (quick) / <=5 (thorough) over an 18-letter alphabet of the calls whose interplay decides the encoding. Non-trivial = at least one reach probe fired. Added in waves 19-22: own MID entries handed back reordered; the caller overwrites what Data() of a command / descriptor returned; SetDescriptors(append(Descriptors(), d)) interleaved on several created signals; a descriptor lent to another signal; a damaged section decoded first; argument objects changed after SetComponents / SetMID; the buffer the signal was decoded from must stay untouched by every later call.",
 		Real: []string{"scte35.CreateSCTE35 / CreateSpliceNull / CreateTimeSignalCommand / CreateSpliceInsertCommand / CreateSegmentationDescriptor / CreateUPID / CreateComponentOffset", "every Set* of SCTE35, SpliceCommand, SpliceInsertCommand, SegmentationDescriptor", "SCTE35.UpdateData / Data", "SpliceCommand.Data / SegmentationDescriptor.Data", "scte35.NewSCTE35 (decode of the encoded bytes)", "all getters"},
 		Stub: []string{"the caller (scripted history)", "reference serialiser + CRC (ref.Section)", "logical model of the object graph"},
 		Assumptions: []string{
